@@ -131,11 +131,15 @@ def R2_ids_are_rows(ctx):
             ctx.bad("table:%s" % path.split("::")[-1], "lookup function missing", None)
             continue
         rows = [r for r in table(b, max_paths=100000) if r.end == "return"]
-        oks = [r for r in rows if result_variant(r.ret) == "Ok" and not r.ret == ("agg", "std::result::Result", "Ok", (("0", ("item", "routee_compass_core::model::unit::grade::Grade::ZERO")),))]
+        oks = [r for r in rows if ok_value(r) is not None and not r.ret == ("agg", "std::result::Result", "Ok", (("0", ("item", "routee_compass_core::model::unit::grade::Grade::ZERO")),))]
         errs = [r for r in rows if is_err_value(r.ret)]
-        good = len(errs) >= 1 and len(oks) >= 1
+        # a miss is an Err: a separate error path, or the lookup handed on through ok_or/ok_or_else
+        rtm_ = Terms(b)
+        raw_rt = rtm_.return_term()
+        guarded = any(x[0] == "call" and re.search(r"Option::<T>::ok_or(_else)?$", x[1]) and calls_in(x[2][0], "std::slice::<impl [T]>::get") for x in subterms(raw_rt))
+        good = (len(errs) >= 1 or guarded) and len(oks) >= 1
         for r in oks:
-            gets = [x for x in calls_in(r.ret) if x[1] == "std::slice::<impl [T]>::get"]
+            gets = [x for x in calls_in(ok_value(r)) if x[1] == "std::slice::<impl [T]>::get"]
             if not gets:
                 continue
             ix = gets[0][2][1]
@@ -162,7 +166,7 @@ def roles_rule(ctx, rid):
             key = lambda t: [s[2] for s in subterms(t) if s[0] == "const" and isinstance(s[2], str)]
             okb = any("edge_list" in k for k in key(a[0])) and any("vertex_list" in k for k in key(a[1])) and any("n_edges" in k for k in key(a[2])) and any("n_vertices" in k for k in key(a[3]))
         ctx.check(okb, "graph_builder:roles", "the graph builder does not pass (edge list file, vertex list file, n_edges, n_vertices) in that order", gb.where(), detail="config keys in role order")
-    g = F.need(N + "graph_loader::graph_from_files")
+    g = F.original(N + "graph_loader::graph_from_files")   # as written: the counting helper is looked at as a function
     oke = okv = False
     ctx.counters = set()
     with no_inline():
@@ -178,7 +182,7 @@ def roles_rule(ctx, rid):
             if t[0] != "phi" or len(t[1]) != 2 or given not in t[1]:
                 return None
             c = [x for x in t[1] if x != given][0]
-            if c[0] != "call" or c[1] not in F.bodies or not c[1].startswith(N):
+            if c[0] != "call" or (c[1] not in F.bodies and c[1] not in getattr(F, "inlined_bodies", {})) or not c[1].startswith(N):
                 return None
             pos = [i for i, a in enumerate(c[2]) if contains(a, lambda q: q == file_arg)]
             if len(pos) != 1 or any(contains(a, lambda q: q == other_arg or q in (("arg", 3), ("arg", 4))) for a in c[2]):
@@ -314,6 +318,40 @@ def R3_counts_and_readers(ctx):
     ctx.check(okf, "from_csv:all-rows", "from_csv does not collect every row of iterator_from_csv", fc.where())
 
 
+def _unzip(t):
+    """payload convention for Option::zip and tuples: component k of a.zip(b) / of (a, b) is a / b"""
+    def f(x):
+        if x[0] == "field" and str(x[2]) in ("0", "1"):
+            base = rewrite(x[1], f)
+            while base[0] == "mut":
+                base = base[1]
+            if base[0] == "call" and base[1].endswith("Option::<T>::zip") and len(base[2]) == 2:
+                return base[2][int(x[2])]
+            if base[0] == "tuple" and int(x[2]) < len(base[1]):
+                return base[1][int(x[2])]
+            if base[0] == "phi":
+                alts = [f(("field", a, x[2])) or ("field", a, x[2]) for a in base[1]]
+                return mk_phi(alts)
+            return ("field", base, x[2])
+        return None
+    return rewrite(t, f)
+
+
+def _controlling(b, tm, block):
+    out = []
+    for sbb, dt, names, t in switches(b, tm):
+        if names is not None:
+            continue
+        f, tr = bool_targets(t)
+        if tr is None or f is None or tr == f or sbb not in b.dom.get(block, ()):
+            continue
+        if b.dominates(tr, block) and not b.dominates(f, block):
+            out.append((sbb, nosite(deep_strip(dt)), True))
+        elif b.dominates(f, block) and not b.dominates(tr, block):
+            out.append((sbb, nosite(deep_strip(dt)), False))
+    return out
+
+
 def R4_vertex(ctx):
     """C15.R4 vertex deserialiser"""
     F = ctx.F
@@ -327,37 +365,22 @@ def R4_vertex(ctx):
     ok = len(news) == 1
     detail = None
     if ok:
-        zips = [c for c in b.calls() if c.callee and c.callee.endswith("Option::<T>::zip")]
-        ok = len(zips) == 2
-        if ok:
-            inner = [c for c in zips if not any(root_local(b, c.args[0]) == z.dest["l"] for z in zips)]
-            outer = [c for c in zips if c not in inner]
-            ok = len(inner) == 1 and len(outer) == 1
-        if ok:
-            slots = [root_local(b, inner[0].args[0]), root_local(b, inner[0].args[1]), root_local(b, outer[0].args[1])]
-            z = nosite(deep_strip(tm.call_term(outer[0].term, outer[0].bb)))
-            args = [unmut(nosite(deep_strip(tm.operand(x, news[0].bb)))) for x in news[0].args]
-            want = [("field", ("field", unmut(z), "0"), "0"), ("field", ("field", unmut(z), "0"), "1"), ("field", unmut(z), "1")]
-            pos_ok = [loopfree(x) for x in args] == [loopfree(x) for x in want]
-            roles = []
-            for l in slots:
-                keys = set()
-                for (bb, pos, proj) in b.defs.get(l, []):
-                    if pos == "term":
-                        continue
-                    rv = b.blocks[bb]["stmts"][pos]["rv"]
-                    if rv["k"] == "agg" and rv.get("variant") == "None":
-                        continue
-                    for sbb, dt, names, t in switches(b, tm):
-                        if names is None and sbb in b.dom.get(bb, ()):
-                            f_, tr_ = bool_targets(t)
-                            if tr_ is not None and tr_ != f_ and b.dominates(tr_, bb):
-                                for sx in subterms(nosite(deep_strip(dt))):
-                                    if sx[0] == "const" and isinstance(sx[2], str) and sx[2] in ("vertex_id", "x", "y"):
-                                        keys.add(sx[2])
-                roles.append(sorted(keys))
-            detail = (roles, pos_ok)
-            ok = pos_ok and roles == [["vertex_id"], ["x"], ["y"]]
+        # each argument of Vertex::new is a value parsed under the guard `key == <its column name>`: the parse call sites that
+        # can flow into the argument are identified by their site, and each site by the string comparisons that control it
+        roles = []
+        for x in news[0].args:
+            raw = _unzip(deep_strip(tm.operand(x, news[0].bb)))
+            sites = {t_[3] for t_ in subterms(raw) if t_[0] == "call" and len(t_) > 3 and isinstance(t_[3], int) and re.search(r"str::<impl str>::parse|FromStr>::from_str", t_[1])}
+            keys = set()
+            for sbb in sites:
+                for gbb, t_, truth in _controlling(b, tm, sbb):
+                    if truth:
+                        for sx in subterms(t_):
+                            if sx[0] == "const" and isinstance(sx[2], str) and sx[2] in ("vertex_id", "x", "y"):
+                                keys.add(sx[2])
+            roles.append(sorted(keys))
+        detail = roles
+        ok = roles == [["vertex_id"], ["x"], ["y"]]
     ctx.check(ok, "key->field", "Vertex::new(id, x, y) is not fed from the keys (vertex_id, x, y) respectively: %s" % (detail,), b.where(), detail=str(detail))
 
 
